@@ -91,7 +91,7 @@ var modelled = map[string]string{
 func fsSweeps(r *h.Run) {
 	small := treeSpec{Dirs: 3, Files: 3, Big: 70000}
 	specs := []treeSpec{small, {Dirs: 2, Files: 1, Big: 3000, Empty: 2}, {Dirs: 3, Files: 60, Big: 70000, Empty: 85}}
-	if r.Thorough() || r.Deep {
+	if r.Thorough() && !r.Deep { // a deepened run after a broken tie keeps to the three trees: it must stay within minutes
 		specs = append(specs, treeSpec{Dirs: 9, Files: 60, Big: 200000, Empty: 120})
 	}
 	type job struct {
@@ -119,8 +119,12 @@ func fsSweeps(r *h.Run) {
 			if j.i >= 2 {
 				// every k in the thorough tier for the first big tree; a seeded selection otherwise
 				full, err := runFS(&j.ep, j.spec, "cancel-at", -1, false)
-				if err == nil && !(r.Thorough() && j.i == 2 && full.Total < 3000) {
-					stride = full.Total/int64(r.N(40, 600)) + 1
+				if err == nil && !(r.Thorough() && !r.Deep && j.i == 2 && full.Total < 3000) {
+					budget := r.N(40, 600)
+					if r.Deep {
+						budget = 120
+					}
+					stride = full.Total/int64(budget) + 1
 				}
 			}
 			results[ji] = fsSweep(r.Seed, &j.ep, j.spec, stride)
@@ -240,7 +244,7 @@ func main() {
 	corpus(r)
 	ioDeterministic(r)
 	ioRandom(r, r.N(200, 3000), false)
-	ioRandom(r, r.N(60, 1500), true)
+	ioRandom(r, r.N(60, 1500), true) // oracle only
 	ioFiles(r)
 	coverageNote(r)
 	fsPreCancelled(r, treeSpec{Dirs: 4, Files: 3, Big: 100000, Empty: 2})
